@@ -1595,7 +1595,14 @@ void do_symbol_check(Chunk *prev, Chunk *pc, Chunk *next)
       {
          // fix the Issue # 1689
          // using reference = value_type &;
-         pc->GetPrev()->SetType(CT_TYPE);
+         // the chunk right before may be a newline or a comment: retyping that one
+         // would drop the line break and pull the '&' into a line comment
+         Chunk *before = pc->GetPrevNcNnl();
+
+         if (before->IsNotNullChunk())
+         {
+            before->SetType(CT_TYPE);
+         }
          pc->SetType(CT_BYREF);
       }
       else
